@@ -164,16 +164,21 @@ def run(ctx):
 
     for _ in range(ctx.share(ctx.pick(480, 9000))):
         chroms = [("chr%d" % (i + 1), "".join(rng.choice("ACGTN" if rng.random() < 0.3 else "ACGT") for _ in range(rng.randint(1, 40)))) for i in range(rng.randint(1, 3))]
+        route = rng.choice(["file", "dict"])
+        if route == "file" and rng.random() < 0.4:
+            # a contig that Genome.from_file ignores ('_' in its name) somewhere before the end of the FASTA: record order != the genome's contig order
+            chroms.insert(rng.randrange(len(chroms)), ("chr1_alt", "".join(rng.choice("ACGT") for _ in range(rng.randint(1, 40)))))
+        usable = [c for c in chroms if "_" not in c[0]]
         ivs = []
         for _ in range(rng.randint(1, 6)):
-            n, s = rng.choice(chroms)
+            n, s = rng.choice(usable)
             a = rng.randint(0, len(s) - 1)
             b = rng.randint(a + 1, len(s))
             ivs.append((n, a, b, rng.choice("+-")))
         order = {n: i for i, (n, _) in enumerate(chroms)}
         if rng.random() < 0.5:
             ivs.sort(key=lambda t: (order[t[0]], t[1], t[2]))      # otherwise: an unsorted interval table (valid BED)
-        ctx.run_case(case_genomic, {"chroms": chroms, "intervals": ivs, "wrap": rng.choice([1, 3, 7, 60]), "route": rng.choice(["file", "dict"])})
+        ctx.run_case(case_genomic, {"chroms": chroms, "intervals": ivs, "wrap": rng.choice([1, 3, 7, 60]), "route": route})
 
     # ---- translation -------------------------------------------------------------------------
     def case_translate(c):
